@@ -149,12 +149,34 @@ func (endp *Endpoint) Init(cfg *config.Map) error {
 	return nil
 }
 
+// lastErrReader remembers the error returned by the wrapped reader.
+type lastErrReader struct {
+	r   io.Reader
+	err error
+}
+
+func (l *lastErrReader) Read(p []byte) (int, error) {
+	n, err := l.r.Read(p)
+	if err != nil {
+		l.err = err
+	}
+	return n, err
+}
+
 func autoBufferMode(maxSize int, dir string) func(io.Reader) (buffer.Buffer, error) {
 	return func(r io.Reader) (buffer.Buffer, error) {
 		// First try to read up to N bytes.
 		initial := make([]byte, maxSize)
-		actualSize, err := io.ReadFull(r, initial)
+		src := &lastErrReader{r: r}
+		actualSize, err := io.ReadFull(src, initial)
 		if err != nil {
+			// io.ReadFull reports the regular end of a short message as
+			// io.ErrUnexpectedEOF. The message reader returns the very same
+			// error when the client disconnects in the middle of the
+			// message, this one must not be mistaken for the end of it.
+			if err == io.ErrUnexpectedEOF && src.err != io.EOF {
+				return nil, err
+			}
 			if err == io.ErrUnexpectedEOF {
 				log.Debugln("autobuffer: keeping the message in RAM (read", actualSize, "bytes, got EOF)")
 				return buffer.MemoryBuffer{Slice: initial[:actualSize]}, nil
